@@ -134,3 +134,40 @@ def export_writes(repo, folder, attrs: Dict[str, object], device_commisioning: b
         if nm.endswith(".set") and len(args) == 3:
             out.append(args)
     return ("writes", out)
+
+
+def convert_kinds(chk, rule: str):
+    """The kind of value each data type's text becomes on import (binary types: bytes from hex digits, leading zeros kept; text
+    types: the text itself; REAL: float; every other type, BOOLEAN and the time types included: int), decided by specialising
+    _convert_variable per type code through the module's own helpers."""
+    from .common import ctx
+    repo, folder = ctx(chk)
+    cv = repo.func(E, "_convert_variable", f"{chk.prop}.{rule}")
+    chk.saw(cv)
+    kinds_bad = kinds_unknown = None
+    n_types = 0
+    mod_funcs = {n.name: n for n in cv.mod.tree.body if isinstance(n, ast.FunctionDef) and n is not cv.node}
+    for tname, code in sorted(((k, v[0]) for k, v in O.DATA_TYPES.items()), key=lambda kv: kv[1]):
+        if tname in ("OCTET_STRING", "DOMAIN"):
+            cases = [(t_, bytes.fromhex(t_)) for t_ in ("cafe01", "00a1b2", "0A1B2C", "00", "0010")]
+        elif tname in ("VISIBLE_STRING", "UNICODE_STRING"):
+            cases = [("cafe01", "cafe01"), ("0x10", "0x10"), ("007", "007")]
+        elif tname.startswith("REAL"):
+            cases = [("1.5", 1.5), ("-0.25", -0.25)]
+        else:
+            cases = [("0x10", 16), ("0", 0), ("10", 10)]
+        for text, want in cases:
+            r = partial_eval(folder, cv.node, cv.mod, None, {"node_id": None, "var_type": code, "value": text}, mod_funcs)
+            if r[0] == "unknown":
+                kinds_unknown = f"{tname}: {r[1]}"
+                break
+            if r != ("return", want) or type(r[1]) is not type(want):
+                kinds_bad = f"a {tname} value `{text}` becomes {r[1]!r} ({'exception' if r[0] == 'raise' else type(r[1]).__name__}); expected {want!r}"
+                break
+        if kinds_unknown or kinds_bad:
+            break
+        n_types += 1
+    if kinds_unknown:
+        chk.notes.append(f"{chk.prop}.{rule} _convert_variable could not be specialised per type ({kinds_unknown})")
+    else:
+        chk.check(kinds_bad is None, rule, f"{E}:_convert_variable | kind of value per data type (specialised for {n_types} type codes)", cv.loc(), kinds_bad or "")
